@@ -169,12 +169,14 @@ Fixpoint all_some {A} (l : list (option (list A))) : option (list A) :=
 
 (** cooler cload pairs: per chunk sanitize (schema "pairs", validate) then aggregate; the partial
     results are merged by summation; no pixel validation (boundscheck/triucheck/dupcheck off).
-    None = the command fails. *)
+    The merge walks the bin1 index of the partial files up to nbins, so a pixel whose bin1_id is
+    >= nbins (only reachable through known finding D2) never reaches the output, whereas
+    bin2_id = nbins is stored.   None = the command fails. *)
 Definition cload_pairs (blocks : list (list bin)) (zero_based : bool) (ta : tril_action)
            (chunks : list (list record)) : option (list pixel) :=
   match all_some (map (sanitize_records blocks (negb zero_based) true ta) chunks) with
   | None => None
-  | Some recs => Some (aggregate_records recs)
+  | Some recs => Some (filter (fun p => row p <? zlen (table blocks)) (aggregate_records recs))
   end.
 
 (** _validate_pixels as configured by `cooler load`: bounds, upper-triangularity (when the storage
